@@ -30,6 +30,30 @@ pub fn run(out: &mut Out, tier: &str, rng: &mut Rng) {
             sess::run_case(out, &inst, "sess", &[Ev::Bytes(s.clone()), Ev::Close(close)], true);
         }
     }
+    // a malformed 10-byte header somewhere in the stream of an armed session (stale version, zero length, bad magic,
+    // bad padding, all ones): the session goes on, and when the client disappears the failsafe stop is issued
+    let bad_headers: [[u8; 10]; 6] = [
+        [b'L', b'X', b'R', 2, 0x20, 0, 1, 0, 0, 0],
+        [b'L', b'X', b'R', 3, 0x20, 0, 0, 0, 0, 0],
+        [b'X', b'X', b'R', 3, 0x20, 0, 1, 0, 0, 0],
+        [b'L', b'X', b'R', 3, 0x20, 0, 1, 1, 2, 3],
+        [0xFF; 10],
+        [0; 10],
+    ];
+    for bad in bad_headers {
+        for close in Close::ALL {
+            for armed in [0x10u8, 0x00] {
+                let mut st = session_frame(armed, "m").bytes;
+                st.extend(sess::frame(0x20, &[0x05, 0x00, 0x64]));
+                st.extend_from_slice(&bad);
+                sess::run_case(out, &inst, "sess", &[Ev::Bytes(st.clone()), Ev::Close(close)], armed != 0);
+                // … and with more traffic after it
+                st.extend(sess::frame(0x45, &[0x1E, 1]));
+                sess::run_case(out, &inst, "sess", &[Ev::Bytes(st), Ev::Close(close)], armed != 0);
+                out.count("malformed header before the death");
+            }
+        }
+    }
     let n_streams = if thorough { 1500 } else { 120 };
     let maxf = if thorough { 5 } else { 3 };
     for _ in 0..n_streams {
